@@ -6,6 +6,7 @@ import Oracle.DeadLetters
 namespace Oracle.C02
 
 def suites : List (String × Suite) := [
+  ("dispatchers", Oracle.Mailbox.dispatchSuite),
   ("mailbox-facts", Oracle.Mailbox.factsSuite),
   ("mailbox", Oracle.Mailbox.model),
   ("mailbox-judge-c02", Oracle.Mailbox.judge false),
